@@ -3,6 +3,7 @@ package main
 import (
 	"fmt"
 	"go/token"
+	"go/types"
 	"strings"
 
 	"golang.org/x/tools/go/ssa"
@@ -643,6 +644,7 @@ func checkC06(c *Ctx, r *Report) {
 				lform := fe.eval(lf.val)
 				k0, isC := lform.isConst()
 				switch {
+				case c06BoundedByHeld(fe, lf.val, R, 0):
 				case isC && k0 == 0:
 				case polyEqual(lform, R):
 				case relOnEdge(fe, lform, R, lf.from, lf.at)["<="]:
@@ -791,4 +793,60 @@ func checkC06(c *Ctx, r *Report) {
 	// ---- R5: the CHF trusts the rating function to turn money into units
 	rfRules(c, r, "", "C06.R5", "", "", "C06.R5")
 	checkCellWriters(c, r, "C06.R6")
+}
+
+// c06BoundedByHeld: v is, for every value of its operands, 0 or at most the
+// reservation held R - decided on the shape of builtin min / max expressions:
+// max(R, 0) is R when money is held and 0 otherwise; min(x, y) of unsigned
+// operands is at most y, so it inherits the property from either operand.
+func c06BoundedByHeld(fe *formEval, v ssa.Value, R poly, depth int) bool {
+	return c06Bounded(fe, v, R, depth, false)
+}
+
+// nonNeg: v is about to be converted from a signed to an unsigned type, so a
+// negative reservation must not get through as it stands.
+func c06Bounded(fe *formEval, v ssa.Value, R poly, depth int, nonNeg bool) bool {
+	if depth > 6 {
+		return false
+	}
+	switch x := v.(type) {
+	case *ssa.Convert:
+		signed := func(t types.Type) bool {
+			b, ok := t.Underlying().(*types.Basic)
+			return ok && b.Info()&types.IsInteger != 0 && b.Info()&types.IsUnsigned == 0
+		}
+		return c06Bounded(fe, x.X, R, depth+1, nonNeg || (signed(x.X.Type()) && !signed(x.Type())))
+	case *ssa.ChangeType:
+		return c06Bounded(fe, x.X, R, depth+1, nonNeg)
+	case *ssa.Const:
+		k, ok := constInt(x)
+		return ok && k == 0
+	case *ssa.Call:
+		if len(x.Call.Args) != 2 {
+			return false
+		}
+		a0, a1 := x.Call.Args[0], x.Call.Args[1]
+		name := ""
+		if b, ok := x.Call.Value.(*ssa.Builtin); ok {
+			name = b.Name()
+		} else if sc := x.Call.StaticCallee(); sc != nil && (sc.Name() == "min" || strings.HasPrefix(sc.Name(), "min[")) && isMinFunction(sc) {
+			name = "min" // the module's own generic min
+		}
+		switch name {
+		case "max":
+			// max(R, 0) / max(0, R)
+			isZero := func(v ssa.Value) bool { k, ok := constInt(v); return ok && k == 0 }
+			isR := func(v ssa.Value) bool { return polyEqual(fe.eval(v), R) }
+			return (isR(a0) && isZero(a1)) || (isZero(a0) && isR(a1))
+		case "min":
+			bt, ok := x.Type().Underlying().(*types.Basic)
+			if !ok || bt.Info()&types.IsUnsigned == 0 {
+				return false
+			}
+			return c06Bounded(fe, a0, R, depth+1, nonNeg) || c06Bounded(fe, a1, R, depth+1, nonNeg)
+		}
+	default:
+		return !nonNeg && polyEqual(fe.eval(v), R)
+	}
+	return false
 }
